@@ -1,12 +1,12 @@
 SPECIFICATION Spec
 CHECK_DEADLOCK FALSE
 POSTCONDITION Accepted
-INVARIANT C15_Registry
 INVARIANT C15_Bound
 INVARIANT C15_Dense
+INVARIANT C15_OneFlow
 INVARIANT C15_Agree
+INVARIANT C15_Extends
 INVARIANT C15_FullStillAttributed
 INVARIANT C15_PerFlow
 INVARIANT C15_Default
 INVARIANT NoPanic
-PROPERTY C15_Monotone
